@@ -6,7 +6,7 @@ import core, store_common as sc
 ID = 'C13'
 GENMODS = ['gen_store']
 TARGET = 'props/C13.vo'
-PROOF_FILES = ['proof/C13.v', 'props/C13.v']
+PROOF_FILES = ['proof/C13.v', 'proof/IniProofs.v', 'proof/IniFile.v', 'proof/IniFile2.v', 'proof/StoreText.v', 'props/C13.v']
 AXIOMS = []
 TRUSTED = [
     'Coq 8.16.1 kernel; vm_compute for the correspondence evaluation; no axioms',
@@ -109,7 +109,10 @@ def correspond(ctx):
     dist = {'histories_with_several_views': sum(1 for c in cases if len(c['views']) > 1), 'empty_sets': sum(1 for c in cases for v in c['views'] if not v[1]),
             'unknown_labels': sum(1 for c in cases for v in c['views'] if 'Qq' in v[1]), 'kinds': {k: sum(1 for c in cases if c['model']['kind'] == k) for k in ('pair', 'eam', 'fs')},
             'potable_cases': len(pcases)}
-    return {'evaluations': len(allc), 'cases': allc, 'nontrivial': core.distinct_count([c for c in cases if any(v[1] for v in c['views'])]) + core.distinct_count(pcases),
+    # down to characters (proof/StoreText.v, c13_deleted_file_text): the files with the offending lines deleted, printed, against the raw parser
+    tdis, tstats = sc.check_store_text([hand_delete(c['model'], c['mode'], c['S']) for c in pcases] + [hand_delete(c['model'], v[0], v[1]) for c in cases[:20] for v in c['views'][:1]], 'C13t')
+    dis += tdis; dist.update(tstats)
+    return {'evaluations': len(allc) + tstats['store_text_files'], 'cases': allc, 'nontrivial': core.distinct_count([c for c in cases if any(v[1] for v in c['views'])]) + core.distinct_count(pcases),
             'rule': 'generated pair/EAM/FS models; 1..4 include/exclude views (empty, partial, full sets, unknown labels) created and read in interleaved histories through FilteredConfigParser: every filtered list compared with the model; '
                     'potable --include-species/--exclude-species output compared with the output for the hand-edited file, all targets of the generator; non-trivial = a non-empty species set',
             'samples': cases[:1] + pcases[:1], 'distribution': dist, 'disagreements': dis[:20], 'oracle_cases': cases[:40]}
@@ -129,6 +132,7 @@ def gen_potable(rng):
     return {'potable_filter': True, 'model': m, 'mode': rng.choice(['include', 'exclude']), 'S': gen_species_set(rng, m['els']), 'route': rng.choice(['cli', 'api', 'api'])}
 
 def oracle(case):
+    if case.get('kind') in ('ini', 'store_text'): return []      # text-level correspondence cases
     if not case.get('potable_filter'):
         # histories of views: every read must be the list of the file with the offending lines deleted, for THAT view's set
         try: outs = run_impl(case)
